@@ -51,6 +51,15 @@ def gen_cases(rng, tier):
         k = r.choice([1, 1, 2, 3, 5, 8])
         ndesc = r.randint(1, 3)
         descs = [V.gen_descspec(r) for _ in range(ndesc)]
+        w = r.below(12)
+        if w == 0:
+            # same field list under names that differ only in '/' versus '_' (they map to one Python class name)
+            base = V.gen_descspec(r, nfields=r.randint(1, 3))
+            descs = [["fs/file_entry", base[1]], ["fs/file/entry", base[1]], ["fs_file/entry", base[1]]]
+        elif w == 1:
+            # the pair of descriptors whose (name, hash) identifiers coincide, and a same-name/different-fields pair
+            descs = [["t/x", [["stringlist", "a"], ["string", "b"]]], ["t/x", [["string", "a"], ["string", "listb"]]],
+                     ["t/y", [["string", "a"]]], ["t/y", [["varint", "a"]]]]
         recs = []
         for _ in range(k):
             if r.chance(8) and len(recs) >= 0:
@@ -179,8 +188,12 @@ def run_real(case):
 
     with warnings.catch_warnings():
         warnings.simplefilter("ignore")
-        recs = [V.build(s) for s in case["records"]]
-        before = [V.observe(r) for r in recs]
+        recs, before = [], []
+        for s in case["records"]:
+            rec = V.build(s)
+            recs.append(rec)
+            before.append(V.observe(rec))       # observed at creation time, before any later descriptor exists
+        spec_sig = [[s[1][0], s[1][1]] if s[0] == "rec" else ["grouped", s[1]] for s in case["records"]]
         pvs = [W.to_pv(r) for r in recs]
         hashes = []
         for r in recs:
@@ -231,7 +244,7 @@ def run_real(case):
         except Exception as e:
             rvs = ["to_rv failed: " + str(e)[:80]]
         return {"before": before, "after": after, "error": err, "stream": data.hex(), "pvs": pvs, "rvs": rvs,
-                "hashes": hashes}
+                "hashes": hashes, "spec_sig": spec_sig}
 
 
 def first_diff(a, b, path=""):
@@ -288,6 +301,10 @@ def oracle(case, obs):
         return f"reading back raised {obs['error']}"
     if len(obs["before"]) != len(obs["after"]):
         return f"wrote {len(obs['before'])} records, read {len(obs['after'])}"
+    for i, (sig, a) in enumerate(zip(obs["spec_sig"], obs["after"])):
+        got = [a[1], a[2]] if a[0] == "rec" else ["grouped", a[1]]
+        if got != sig:
+            return f"record[{i}] was created as {sig} and read back as {got}"[:400]
     known = None
     for path, a, b in all_diffs(obs["before"], obs["after"], "records"):
         if is_ipv6_low(a, b):
